@@ -888,9 +888,10 @@ void arrange_call_inherited (char *name, parse_node_t * node) {
  * than once by looking at (flags & NAME_PROTOTYPE).
  *
  * @return Returns an index into function definitions table (A_COMPILER_FUNCTIONS
- * area, not the full function list). Returns -1 for prototypes.
+ * area, not the full function list). Returns -1 for prototypes and for a refused
+ * redeclaration; the result is an int so that -1 stays distinct from every index.
  */
-function_number_t define_new_function (char *name, int num_arg, int num_local, uint64_t flags, int type) {
+int define_new_function (char *name, int num_arg, int num_local, uint64_t flags, int type) {
 
   int runtime_num, num = 0;
   unsigned short argument_start_index;
@@ -923,7 +924,7 @@ function_number_t define_new_function (char *name, int num_arg, int num_local, u
           p = strput (p, end, name);
           p = strput (p, end, ".");
           yyerror (buff);
-          return (function_number_t)-1;
+          return -1;
         }
       /*
        * It was either an undefined but used funtion, or an inherited
@@ -984,7 +985,7 @@ function_number_t define_new_function (char *name, int num_arg, int num_local, u
 
       /* If it was yet another prototype, then simply return. */
       if (flags & NAME_PROTOTYPE)
-        return (function_number_t)-1;		/* unused for prototypes */
+        return -1;		/* unused for prototypes */
 
       if (pragmas & PRAGMA_WARNINGS)
         remove_overload_warnings (funp->name);
@@ -1055,7 +1056,7 @@ function_number_t define_new_function (char *name, int num_arg, int num_local, u
       for (; known < num_arg; known++)
         add_to_mem_block (A_ARGUMENT_TYPES, (char *) &any, sizeof (any));
     }
-  return (function_number_t)num;
+  return num;
 }
 
 int define_variable (char *name, int type, int hide) {
